@@ -69,7 +69,7 @@ pub fn plan_c09(thorough: bool) -> Plan {
     let mut cases = vec![];
     let cfgs: Vec<(u32, u64, usize)> = if thorough {
         let mut v = vec![];
-        for ll in [1u32, 2, 3] {
+        for ll in [0u32, 1, 2, 3] {
             for seg in [4096u64, 8192, 0] {
                 // length 5 (111 111 sequences over the 10 symbols) for one configuration, 4 elsewhere
                 // (plan size: every worker process holds the whole plan in memory)
@@ -79,7 +79,7 @@ pub fn plan_c09(thorough: bool) -> Plan {
         }
         v
     } else {
-        vec![(1, 4096, 3), (2, 4096, 4), (2, 8192, 3), (3, 0, 3)]
+        vec![(0, 4096, 3), (1, 4096, 3), (2, 4096, 4), (2, 8192, 3), (3, 0, 3)]
     };
     for (ll, seg, maxlen) in cfgs {
         let cfg = rb_cfg(ll, seg);
@@ -101,9 +101,9 @@ pub fn plan_c09(thorough: bool) -> Plan {
         // reopen with a different configured log length at every position of the short ones
         if thorough || ll == 2 {
             for (ops, n) in sequences(&symbols(0)[..7].to_vec(), 3) {
-                for pos in 0..=ops.len() {
+                for (pos, other) in (0..=ops.len()).flat_map(|p| if ll == 2 { vec![(p, 1u32), (p, 0)] } else { vec![(p, if ll == 1 { 3 } else { 1 })] }) {
                     let mut o = ops.clone();
-                    o.insert(pos, json!({"reopen": {"log_len": if ll == 1 { 3 } else { 1 }}}));
+                    o.insert(pos, json!({"reopen": {"log_len": other}}));
                     let mut next_id = 0u64;
                     for i in 0..o.len() {
                         if o[i].get("ov").is_some() {
@@ -190,7 +190,7 @@ pub fn plan_c09(thorough: bool) -> Plan {
     sort_by_bound(&mut cases);
     let mut p = Plan::new(
         cases,
-        "histx: every sequence of ≤L symbols over {4 fixed commit batches (1 B, 1333 B, 8 KiB values, deletes), the empty commit, commit of an overlay, rollback(1), rollback(2), rollback(3), reopen} for max_rollback_log_len ∈ {1,2,3} × rollback segment size ∈ {4 KiB (one record per segment), 8 KiB, 64 MiB}, plus a reopen with a different log length at every position; plus every sequence of ≤4 (thorough 5) symbols over {write 70000 B + 61381 B values (18 and 16 overflow pages), blind overwrite, blind delete, rewrite large, rollback(1), rollback(2), COLD reopen = a reopen after which nothing is read back} that contains a cold reopen; plus 'quiet' copies (no reads between the operations, one audit at the end) of histories that reopen; plus explicit two-overlay chains in which the ancestor deletes/rewrites an on-disk key and the descendant writes it (blind and read-then-write, empty values, overflow values), committed in order and rolled back one by one / at once / after a reopen; oracle: rollback(n) with n ≤ retained commits succeeds and values/root/seqn equal the model's state n commits back; a request beyond what exists fails, changes nothing and does not poison; between the two the store may either refuse or be exactly right (it legitimately retains more than configured across a reopen); every history ends with a reopen and audit (the store never becomes unopenable). bound = sequence length.",
+        "histx: every sequence of ≤L symbols over {4 fixed commit batches (1 B, 1333 B, 8 KiB values, deletes), the empty commit, commit of an overlay, rollback(1), rollback(2), rollback(3), reopen} for max_rollback_log_len ∈ {0,1,2,3} × rollback segment size ∈ {4 KiB (one record per segment), 8 KiB, 64 MiB}, plus a reopen with a different log length at every position; plus every sequence of ≤4 (thorough 5) symbols over {write 70000 B + 61381 B values (18 and 16 overflow pages), blind overwrite, blind delete, rewrite large, rollback(1), rollback(2), COLD reopen = a reopen after which nothing is read back} that contains a cold reopen; plus 'quiet' copies (no reads between the operations, one audit at the end) of histories that reopen; plus explicit two-overlay chains in which the ancestor deletes/rewrites an on-disk key and the descendant writes it (blind and read-then-write, empty values, overflow values), committed in order and rolled back one by one / at once / after a reopen; oracle: rollback(n) with n ≤ retained commits succeeds and values/root/seqn equal the model's state n commits back; a request beyond what exists fails, changes nothing and does not poison; between the two the store may either refuse or be exactly right (it legitimately retains more than configured across a reopen); every history ends with a reopen and audit (the store never becomes unopenable). bound = sequence length.",
     );
     p.budget_s = if thorough { 1700 } else { 55 };
     p
